@@ -337,6 +337,44 @@ func gen(t *rapid.T) Case {
 		}
 	}
 
+	// ---- transient failures
+	genFault := func(label string, host int, atChoices []int) FaultSpec {
+		f := FaultSpec{Host: host, At: rapid.SampledFrom(atChoices).Draw(t, label+".at")}
+		f.Kind = pick(t, label+".kind", "status", 7, "reset-before", 2, "truncate", 1, "reset-after", 1)
+		switch f.Kind {
+		case "status":
+			f.Status = rapid.SampledFrom([]int{502, 429, 500, 504, 408, 503, 429, 502}).Draw(t, label+".status")
+			f.RetryAfter = pick(t, label+".retryafter", "", 5, "0.002", 2, "Wed, 21 Oct 2015 07:28:00 GMT", 1)
+		case "truncate":
+			f.Off = between(t, label+".off", 0, 20)
+		}
+		return f
+	}
+	// the member of a mirror group that is tried first (or next) fails transiently early on
+	var group []int
+	for _, r := range regs {
+		if len(c.Hosts[r].Mirrors) > 0 || c.Hosts[r].MirrorOf >= 0 {
+			group = append(group, r)
+		}
+	}
+	if len(group) > 1 && chance(t, "fault.group", 60) {
+		n := 1
+		if chance(t, "fault.group2", 30) {
+			n = 2
+		}
+		for k := 0; k < n; k++ {
+			l := fmt.Sprintf("fault.group%d", k)
+			c.Faults = append(c.Faults, genFault(l, rapid.SampledFrom(group).Draw(t, l+".host"), []int{0, 0, 0, 0, 1, 1, 2, 2, 3, 4, 6}))
+		}
+	}
+	if chance(t, "fault.any", 25) {
+		n := between(t, "fault.any.n", 1, 2)
+		for k := 0; k < n; k++ {
+			l := fmt.Sprintf("fault.any%d", k)
+			c.Faults = append(c.Faults, genFault(l, between(t, l+".host", 0, len(c.Hosts)-1), []int{0, 0, 1, 1, 2, 3, 4, 5, 7, 9}))
+		}
+	}
+
 	// ---- rejected docker config entries
 	anyDocker := false
 	for i := range c.Hosts {
